@@ -65,6 +65,9 @@ class Rep:
             g = twist2_gens(tier, seed)
         if tier == 'quick' and len(g) > 10:
             g = alph.subset(g, 10, 4)
+        if cname == 'UnitQuaternion':
+            # exact half turns: scalar part exactly 0.0 (what r2q gives for a half-turn matrix), not a rounding residue
+            g = g + [('half(x)', np.array([0.0, 1.0, 0.0, 0.0])), ('half(g)', np.array([0.0, 0.6, 0.8, 0.0]))]
         self.gens = g
 
     # library object from reference value
